@@ -26,7 +26,7 @@ theorem go_line (cfg : Cfg) {P Q1 : Parser} {line rest : Bytes} (hi : Inv P) (hs
 /-- request line `method SP target SP version` / status line `version SP code SP reason` -/
 def StartLine (cfg : Cfg) (ty : PType) (line : Bytes) : Prop :=
   splitCRLF line = none ∧ ∃ x y z, line = x ++ SP :: (y ++ SP :: z) ∧ SP ∉ x ∧ SP ∉ y ∧
-    (ty = .request → ∃ u, Px.Url.fromBytes cfg.allowedSchemes y = .ok u)
+    (ty = .request → x ≠ [] ∧ ∃ u, Px.Url.fromBytes cfg.allowedSchemes y = .ok u)
 
 theorem lineStep_startLine {cfg : Cfg} {ty : PType} {line : Bytes} (h : StartLine cfg ty line) (p : Parser)
     (hty : p.ty = ty) : ∃ Q1, lineStep cfg p line = .ok Q1 := by
@@ -35,8 +35,11 @@ theorem lineStep_startLine {cfg : Cfg} {ty : PType} {line : Bytes} (h : StartLin
   rw [hty]
   cases ty with
   | request =>
-    obtain ⟨u, hu⟩ := hu rfl
-    simp only [splitN1_three SP x y z hx hy, hu]
+    obtain ⟨hxne, u, hu⟩ := hu rfl
+    have hxe : x.isEmpty = false := by cases x with
+      | nil => exact absurd rfl hxne
+      | cons _ _ => rfl
+    simp only [splitN1_three SP x y z hx hy, hxe, Bool.false_eq_true, if_false, hu]
     exact ⟨_, rfl⟩
   | response =>
     simp only [splitN1_three SP x y z hx hy]
